@@ -163,11 +163,13 @@ class BufferRun:
                 self.stopped = True
                 return None
             e = [x for x in excs if x is not None][0]
-            if (name == "sample_batch" and self.family == "sub" and not self.prio
-                    and isinstance(e, ValueError) and "high" in str(e)):
-                # no admissible start: the generator was asked for integers(0, 0); vacuous
+            if (name == "sample_batch" and self.family == "sub" and isinstance(e, ValueError)
+                    and ("high" in str(e) or "No valid entry" in str(e))):
+                # no admissible start: the uniform variant asks the generator for integers(0, 0), the prioritised
+                # variant refuses explicitly; either way nothing invalid is handed out (vacuous)
                 self.res.log.add("sample-skip-no-admissible-start")
                 self.res.probe("no_admissible_start")
+                self.last_task = None  # a refused sample leaves no "most recently sampled batch" to update
                 return None
             self.V(clause, f"{name} raised {type(e).__name__}: {e}")
             self.stopped = True
@@ -785,9 +787,7 @@ class BufferRun:
     def _can_sample_sub(self):
         if not self.active_tasks():
             return False
-        if not self.prio:
-            return True  # an empty admissible set surfaces as integers(0, 0) and is skipped
-        return all(self._certain_starts(t) for t in self.active_tasks())
+        return True  # an empty admissible set surfaces as a ValueError (both variants) and is skipped
 
     def op_enum_sub(self, B, h, inter):
         if not self._can_sample_sub():
